@@ -18,5 +18,13 @@ pub fn run(args: &Args) {
         out.case("pairhist", &case.coq(), &r.obs, case.json());
     }
     crate::routerstream::run_stream(&mut out, "C14", &mut rng, args.n);
+    // vault: Share query issued right before every withdrawal
+    for i in 0..args.n {
+        let cw20 = i % 2 == 1;
+        let fees = crate::vault_hist::gen_fees(&mut rng);
+        let funds = crate::vault_hist::gen_funds(&mut rng);
+        let len = 8 + rng.below(9) as usize;
+        crate::vault_hist::run_history(&mut out, "C14", "vault", &mut rng, crate::vault_hist::Mix::SharePrice, cw20, fees, funds, crate::vault_hist::Source::Gen(len));
+    }
     out.finish();
 }
